@@ -13,9 +13,11 @@ pub mod c12;
 pub mod c13;
 pub mod c14;
 pub mod c15;
+pub mod c16;
 pub mod c17;
 pub mod c18;
 pub mod c19;
+pub mod c20;
 
 use crate::rt::{Args, Outcome, Report};
 use serde_json::Value;
@@ -37,9 +39,11 @@ pub fn run(args: &Args, rep: &mut Report) -> Result<(), String> {
 		"C13" => c13::run(args, rep),
 		"C14" => c14::run(args, rep),
 		"C15" => c15::run(args, rep),
+		"C16" => c16::run(args, rep),
 		"C17" => c17::run(args, rep),
 		"C18" => c18::run(args, rep),
 		"C19" => c19::run(args, rep),
+		"C20" => c20::run(args, rep),
 		p => return Err(format!("unknown property {}", p)),
 	}
 	Ok(())
@@ -62,9 +66,11 @@ pub fn replay(args: &Args, part: &str, case: &Value) -> Result<Outcome, String> 
 		"C13" => c13::replay(args, part, case),
 		"C14" => c14::replay(args, part, case),
 		"C15" => c15::replay(args, part, case),
+		"C16" => c16::replay(args, part, case),
 		"C17" => c17::replay(args, part, case),
 		"C18" => c18::replay(args, part, case),
 		"C19" => c19::replay(args, part, case),
+		"C20" => c20::replay(args, part, case),
 		p => Err(format!("unknown property {}", p)),
 	}
 }
